@@ -27,5 +27,13 @@ CHECKS = {
     text='Postconditions and metamorphic relations on the real compute_state_difference / resample_state / to_180_range / perturb_pva against an independent reference (own linear interpolation, own shortest-arc quaternion slerp, own radii): both argument orders, swap branch, self / sub-sampled differences, index rule, ranges, first-order recovery ladder, congruence of angle reduction for |x| up to 1e9 in all input forms.',
     ref='2/C18', technique='runtime postconditions vs reference model + metamorphic relations',
     note='|pitch| <= 70 deg in tables; longitudes near but not across +-180 (the code does not wrap longitude differences).'),
+ 'C14': dict(
+    text='icontract class invariant on the real EstimationModel (structure re-derived from the enable mask, evaluated after every public method), round-trip postconditions between Parameters.apply, update_estimates (1..4 partial updates), correct_increments and output_matrix, naming agreement of Parameters.data_frame with the model states, and deterministic read-out of white-noise / bias-walk scaling through a recording RandomState. Thorough tier enumerates all 110592 admissible enable masks for the structural invariant.',
+    ref='2/C14', technique='runtime class invariant (icontract) + round-trip postconditions with a recording RNG',
+    note='Disabled entries encoded as None / 0.0 only (negative sigmas are outside the documented encoding).'),
+ 'C15': dict(
+    text='Postcondition monitor on the real compute_increments_from_imu against exact per-interval rotation vectors and start-frame velocity integrals (DOP853 at rtol 1e-13), over a ten-rung halving ladder; verdict = least-squares order on the finest usable rungs (>= 3.5 linear signals incl. the documented neglected term, >= 2.5 sinusoids) plus structural postconditions (rows, stamps, dt bitwise).',
+    ref='2/C15', technique='runtime postcondition vs exact reference integrals on an interval-halving ladder',
+    note='Order of accuracy is a limit statement restated as a bounded ladder; reference floor measured at rounding level.'),
 }
 PENDING = {}
